@@ -34,6 +34,16 @@ CHECKS = {
    note="Partial: race-freedom in the sense of the Go memory model is not provable in an executable Gallina model; the race detector is sampling (GOMAXPROCS 1,2,4,16, injected Gosched, per-goroutine bytes compared with the sequential result). Payload equality is checked through SHA-1 digests of canonical JSON; for sign/correct/replicate freshly generated members (signature bytes, new uuids, digest over them) are projected away. Capacity growth in the slice model is max(needed, 2*cap) (no size classes). Known finding: TagSet.Merge appends into the shared regime tag array (findings/C15.json). Trusted: Coq kernel, extraction, OCaml driver, harness/c15.go (reflection walker), harness/c15race, python orchestration, the CLI binary as the 'standalone operation'.",
    technique="Rocq theorems over a transition system and a slice heap model + snapshot/stream correspondence (extracted OCaml predicate vs cmd/gobl) + race-detector stress",
    design="7 (C15)"),
+ "C08": dict(
+   text="Proof for the modelled core, partial for whole documents. Rocq theorems (rocq/Props/C08.v, axiom-free) over Digest/Envelope.v: a calculated envelope validates; validity is preserved by every re-encoding with the same normal form (member order, null members); if a valid envelope still validates after its document was replaced then the normal forms are equal OR the hash collides on the two explicit canonical byte strings (no hypothesis on the hash - undetected tampering IS a collision); recalculation changes the digest or exhibits a collision; the one derived member ($regime = supplier country) is modelled and `every_text_edit_evident_refuted` states the resulting blind spot. Canonical-JSON invariance/injectivity (C07) are premises. Tie: every example envelope and generated invoices: ~25k (quick) / all (thorough) single edits of the serialised document + re-encodings through gobl.Parse/Validate/Calculate, judged by an oracle that decides `no effect` from the re-serialised parsed documents, with independent sha256 and canonical printer; model verdicts and digests compared on every case.",
+   note="PARTIAL: that json.Marshal of the parsed document loses no schema-defined member (marshal_lossless_on) and what every Validate method accepts are established by the sweep - search, not proof. Logical content = the parsed document: unknown members and a derivable $regime are not content. Known finding C08-amount-escapes (escapes inside amount strings are not decoded) with proposed patch in fixes/.",
+   technique="Rocq reduction theorems over an abstract envelope/digest model + exhaustive single-edit sweep of serialised envelopes against the Go implementation",
+   design="7 (C08)"),
+ "C16": dict(
+   text="Proof for the modelled core, partial for whole documents. Rocq theorems (rocq/Props/C16.v, axiom-free) over Correct/Correct.v (functional options incl. raw-JSON override and header stamps by pointer, merged correction definition, Invoice.Correct/Replicate, Envelope.Correct/Replicate with a small heap of stamp objects): exact acceptance conditions (correct_accepts_iff), shape of an accepted correction and of a replica (new identifiers given a fresh supply, unsigned, no stamps, no code, requested allowed type, exactly one preceding reference with the source's identity, reason, extensions, required stamps, optional tax copy, fresh digest), heap theorems: Replicate writes to no existing object; Correct writes to none unless raw JSON names stamps (source_unchanged_partial) and does otherwise (source_unchanged_refuted, confirmed on Go: finding C16-data-stamps-overwrite-source-header with patch); the result shares the header's stamp objects (refuted variant); after the proposed repair both hold (source_unchanged_after_repair). Tie: 73 example invoices of 16 regimes / 12 addons x types x option subsets x three ways of passing options through Envelope.Correct/Replicate, a subset through POST /bulk of gobl serve and the gobl correct/replicate commands; source serialised before/after/after overwriting every leaf of the result by reflection; oracle P from the published regime/addon JSON; model compared on every case (verdict kind, projected result, source stamps after, shared objects).",
+   note="PARTIAL: Invoice.Calculate keeping identifier/type/series/code/dates/preceding (calc_keeps_header) is a premise observed by the sweep, not proved (one designed exception handled: es-verifactu moves the doc-type extension to tax.ext); Clone is modelled as identity on values. The model variant (code as it stands / after the repair) is selected by whether the finding is listed under known or fixed.",
+   technique="Rocq theorems over a Gallina model with a heap of stamp objects + differential correspondence and reflection-based aliasing test against the Go implementation (library, HTTP bulk, CLI)",
+   design="7 (C16)"),
 }
 
 CALC_NOTE = ("Trusted: Coq kernel, extraction, OCaml driver, Go harness, python generator/comparison and the independent python reading of the calculation. "
